@@ -94,6 +94,8 @@ def _job(job):
     name, text, seed = job
     r = random.Random('c05/%s/%s' % (seed, name))
     boost = r.random() < 0.5
+    if name.startswith('replay'):
+        boost = name.endswith('+boost')
     it = ml.impl_items(text)
     res = ml.impl_matlab([text], 'mod', [], boost)
     return name, text, boost, it, res
@@ -152,6 +154,10 @@ def run(rep, tier, seed, replay=None, proof_ok=True):
                             'with callee, every routine definition, vs Matlab/Ids.v; plus the property checked directly '
                             'on the toolbox; non-trivial = toolbox with >= 3 ids')
     cases, stats = ml.gen_cases(tier, seed, 150, 4000)
+    if replay:
+        import json as _json
+        _t = _json.load(open(replay))['input']
+        cases, stats = [('replay', _t), ('replay+boost', _t)], {}
     rep.coverage['input_distribution'] = stats
     with mp.get_context('fork').Pool(14) as pool:
         results = pool.map(_job, [(n, t, seed) for n, t in cases], chunksize=2)
